@@ -65,6 +65,10 @@ class Stats:
         }
 
 
+class EnvModel(dict):
+    """model returned by a forked solver run: name -> float/bool"""
+
+
 class Ctx:
     def __init__(self):
         self.timeout = 10000  # ms per query (per backend attempt)
@@ -86,6 +90,7 @@ class Ctx:
         self.nfresh = 0
         self.pre = []
         self.concrete_env = None
+        self.concrete_trace = None
         self.concrete_funcs = getattr(self, "concrete_funcs", {})
         self.coverage = {}
         self.reset([])
@@ -141,22 +146,102 @@ class Ctx:
             s = z3.Solver()
         s.set("timeout", int(timeout))
         s.add(*full)
+        # tactic pipelines do not always honour `timeout` (preprocessing of very large terms): hard interrupt as a backstop
+        import threading
+
+        wd = threading.Timer(timeout / 1000.0 + 1.5, z3.main_ctx().interrupt)
+        wd.daemon = True
+        wd.start()
         try:
             r = s.check()
         except z3.Z3Exception:
             r = z3.unknown
+        finally:
+            wd.cancel()
         res = str(r)
         self.stats.add(backend, res, time.time() - t)
         return res, s
 
-    def solve(self, exprs, timeout=None, want_model=False, with_axioms=True):
-        """portfolio; returns (res, solver|None, backend)   res in 'sat','unsat','unknown'"""
+    def _run_forked(self, backend, full, timeout):
+        """run one query in a forked child that can be killed: nlsat occasionally ignores both its timeout and interrupts
+        (algebraic-number computations); the parent never waits longer than timeout + 2 s."""
+        import json as _json
+        import os
+        import select
+        import signal
+
+        t = time.time()
+        r, w = os.pipe()
+        pid = os.fork()
+        if pid == 0:
+            try:
+                os.close(r)
+                signal.setitimer(signal.ITIMER_REAL, 0)
+                st = Stats()
+                self.stats = st
+                res, sol = self._run(backend, full, timeout)
+                payload = {"res": res}
+                if res == "sat":
+                    m = sol.model()
+                    env = {}
+                    for d in m.decls():
+                        if d.arity() == 0:
+                            env[d.name()] = val_to_float(m[d])
+                    payload["env"] = env
+                data = _json.dumps(payload).encode()
+                off = 0
+                while off < len(data):
+                    off += os.write(w, data[off:off + 65536])
+            except BaseException:
+                pass
+            finally:
+                os._exit(0)
+        os.close(w)
+        deadline = t + timeout / 1000.0 + 2.0
+        chunks = []
+        res, model = "unknown", None
+        try:
+            while True:
+                left = deadline - time.time()
+                if left <= 0:
+                    break
+                ready, _, _ = select.select([r], [], [], left)
+                if not ready:
+                    break
+                b = os.read(r, 1 << 20)
+                if not b:
+                    break
+                chunks.append(b)
+            if chunks:
+                try:
+                    payload = _json.loads(b"".join(chunks).decode())
+                    res = payload["res"]
+                    if res == "sat":
+                        model = EnvModel(payload.get("env", {}))
+                except Exception:
+                    res = "unknown"
+        finally:
+            os.close(r)
+            try:
+                os.kill(pid, signal.SIGKILL)
+            except ProcessLookupError:
+                pass
+            try:
+                os.waitpid(pid, 0)
+            except ChildProcessError:
+                pass
+        self.stats.add(backend + "/forked", res, time.time() - t)
+        return res, model
+
+    def solve(self, exprs, timeout=None, want_model=False, with_axioms=True, guard=False, mode="full"):
+        """portfolio; returns (res, solver|None, backend)   res in 'sat','unsat','unknown'
+        mode: 'quick' = abstraction-only stage + one short nlsat run; 'rest' = the long runs only; 'full' = both"""
         timeout = timeout or self.timeout
         exprs = [e for e in exprs if not z3.is_true(e)]
         if any(z3.is_false(e) for e in exprs):
             return "unsat", None, "syntactic"
         axioms = self.axioms_for(exprs) if with_axioms else []
-        if axioms:
+        if axioms and mode != "rest":
             # stage 0: without the definitions of the fresh variables (pure abstraction).  unsat here is unsat with them.
             res, s = self._run("nlsat", exprs, min(timeout, 2000))
             if res == "unsat":
@@ -169,9 +254,17 @@ class Ctx:
         plan = [("nlsat", min(timeout, 2500)), ("smt", timeout), ("nlsat", timeout)]
         if timeout <= 5000:
             plan = [("nlsat", timeout // 2), ("smt", timeout // 2)]
+        if mode == "quick":
+            plan = [("nlsat", min(timeout, 2500))]
+        elif mode == "rest":
+            plan = [("smt", timeout), ("nlsat", timeout)]
         last = None
+        risky = guard and bool(axioms) and len(full) > 12  # obligations only: forking every feasibility query doubled the run time
         for backend, to in plan:
-            res, s = self._run(backend, full, to)
+            if backend == "nlsat" and risky:
+                res, s = self._run_forked(backend, full, to)
+            else:
+                res, s = self._run(backend, full, to)
             last = s
             if res in ("sat", "unsat"):
                 return res, s, backend
@@ -193,7 +286,22 @@ class Ctx:
 
     def decide(self, cond):
         if self.concrete_env is not None:
-            return bool(self.evalf(cond, self.concrete_env))
+            if self.concrete_trace is None:
+                return bool(self.evalf(cond, self.concrete_env))
+            # record the decisions exactly as the symbolic mode would number them
+            cs = z3.simplify(cond)
+            if z3.is_true(cs):
+                return True
+            if z3.is_false(cs):
+                return False
+            k = cs.get_id()
+            if k in self.cache:
+                return self.cache[k]
+            v = bool(self.evalf(cond, self.concrete_env))
+            self.keep.append(cs)
+            self.cache[k] = v
+            self.concrete_trace.append(v)
+            return v
         cond = z3.simplify(cond)
         if z3.is_true(cond):
             return True
@@ -674,12 +782,33 @@ class Path:
         self.decisions = decisions
 
 
-def explore(fn, max_paths=500, verbose=False, on_path=None):
+def trace_concrete(fn, env):
+    """decision sequence of fn for one concrete input (used to explore generic paths first)"""
+    CTX.reset([])
+    CTX.concrete_env = env
+    CTX.concrete_trace = []
+    CTX._fcache = {}
+    try:
+        fn()
+        return list(CTX.concrete_trace)
+    except BaseException:
+        return None
+    finally:
+        CTX.concrete_env = None
+        CTX.concrete_trace = None
+
+
+def explore(fn, max_paths=500, verbose=False, on_path=None, seeds=()):
     """DFS over the feasible decision sequences of fn (fresh execution of the real code per path).
     Returns list of Path.  If on_path is given it is called right after each path, while the
-    definitions of that path are current."""
+    definitions of that path are current.  seeds: concrete input environments whose paths are explored first."""
     stack = [[]]
+    for env in seeds:
+        tr = trace_concrete(fn, env)
+        if tr:
+            stack.append(tr)
     results = []
+    seen_paths = set()
     truncated = False
     while stack:
         if len(results) >= max_paths:
@@ -696,6 +825,10 @@ def explore(fn, max_paths=500, verbose=False, on_path=None):
             status = "abort"
         trace = list(CTX.trace)
         p = Path(status, out, list(CTX.pc), [v for _, v, _ in trace])
+        sig = tuple(p.decisions)
+        if sig in seen_paths:
+            continue
+        seen_paths.add(sig)
         results.append(p)
         if verbose:
             print(
@@ -758,6 +891,8 @@ def val_to_str(v):
 
 def model_env(solver, names=None):
     """dict name -> float for all non-fresh variables of the model"""
+    if isinstance(solver, EnvModel):
+        return {k: v for k, v in solver.items() if "!" not in k and (names is None or k in names)}
     m = solver.model()
     env = {}
     for d in m.decls():
